@@ -837,6 +837,18 @@ func min(a, b int) int {
 	return b
 }
 
+// FamMixedCmp: comparisons between operands of one signedness and DIFFERENT widths (the compiler widens the
+// narrower operand: by its sign for signed operands).
+func FamMixedCmp(t, u Type, emit func(Gen)) {
+	a, b := Var{Name: "a"}, Var{Name: "b"}
+	params := []Param{{Name: "a", T: t}, {Name: "b", T: u}}
+	for _, ops := range [][2]string{{"==", "!="}, {"<", ">="}, {"<=", ">"}} {
+		emit(Gen{Fam: "cmp-mixed-width", P: &Program{Funcs: []Func{mainFn(params, []Type{BoolT, BoolT}, []Stmt{
+			Return{X: []Expr{Bin{Op: ops[0], L: a, R: b}, Bin{Op: ops[1], L: a, R: b}}},
+		})}}})
+	}
+}
+
 // TypesFor returns the operand types of the expression family.
 func TypesFor(quick bool) []Type {
 	ws := []int{1, 2, 3, 4, 7, 8, 9, 16, 31, 32, 33, 64, 65, 128}
@@ -888,6 +900,13 @@ func Statements(quick bool, emit func(Gen)) {
 	for _, t := range storeTypes {
 		FamConstStore(t, emit)
 		FamConstFlow(t, emit)
+	}
+	mixed := [][2]Type{{Int(3), Int(8)}, {Int(8), Int(3)}, {Int(8), Int(16)}, {Uint(3), Uint(8)}}
+	if !quick {
+		mixed = append(mixed, [2]Type{Int(16), Int(33)}, [2]Type{Int(33), Int(16)}, [2]Type{Int(33), Int(65)}, [2]Type{Int(64), Int(65)}, [2]Type{Int(65), Int(8)}, [2]Type{Uint(8), Uint(33)}, [2]Type{Uint(65), Uint(64)})
+	}
+	for _, tu := range mixed {
+		FamMixedCmp(tu[0], tu[1], emit)
 	}
 	negTypes := []Type{Uint(8), Int(8), Int(16), Int(64)}
 	if !quick {
